@@ -637,11 +637,14 @@ func C04(c Ctx) *report.Report {
 	}
 	// message histories with ratio shifting off: backing per unit across every liquidity / swap message
 	o := clpOpts(c, 16, 600)
-	o.Pmtp, o.Lppd, o.Rewards, o.Epochs, o.Locks = false, false, false, false, false
-	o.Weights = map[int]int{1: 2, 2: 8, 3: 4, 4: 4, 5: 8, 6: 0, 7: 0, 8: 0, 9: 0}
+	// (two thirds of the worlds with a liquidity-removal lock period: removals then go through unlock requests, and a
+	// provider must not be able to cash the same units in twice)
+	o.Pmtp, o.Lppd, o.Rewards, o.Epochs, o.Locks = false, false, false, false, true
+	o.Weights = map[int]int{1: 2, 2: 8, 3: 4, 4: 5, 5: 8, 6: 5, 7: 1, 8: 0, 9: 0}
 	hs = append(hs, RunClpHistories(c, rep, rng, o, &next)...)
 	for _, h := range hs {
 		MonBacking(rep, h)
+		MonUnits(rep, h)
 		if len(rep.Samples) < 2 && len(h.Steps) > 3 {
 			rep.Sample(replayOf(h, 11))
 		}
